@@ -45,39 +45,12 @@ def r3(run, tree):
     iof.check_reader_initialize(run, tree)
 
 
-def check_derived_variables(run, tree):
-    fi = tree.func("config/defaults.py::additional_variables")
-    run.analysed(fi)
-    D = fi.node.args.args[0].arg
-    for n in walk_no_nested(fi.node):
-        if isinstance(n, ast.Assign) and norm(n.targets[0]).startswith("%s['mesh'][" % D):
-            key = norm(n.targets[0]).split("[")[2].strip("']\"")
-            env = {"%s['mesh']['B_left']" % D: S("BL"), "%s['mesh']['B_right']" % D: S("BR"), "%s['mesh']['density']" % D: S("rho"),
-                   "%s['mesh']['dx']" % D: S("dx")}
-            v = n.value
-            if isinstance(v, ast.Call) and isinstance(v.func, ast.Attribute) and v.func.attr == "to":
-                v = v.func.value
-            ev = TextEval(tree, fi, env, {}, {})
-            ev.constant = lambda node: Poly.const(node.value) if isinstance(node.value, (int, float)) else node.value
-            try:
-                got = ev.ev(v)
-            except Exception as e:
-                run.unresolved("config/defaults.py::additional_variables[%s]" % key, fi.where(n), "cannot evaluate: %s" % e)
-                continue
-            want = {"B_field": (S("BL") + S("BR")) * Poly.const(0.5), "mass": S("rho") * S("dx") * S("dx") * S("dx")}.get(key)
-            if want is None:
-                continue
-            run.ob("config/defaults.py::additional_variables[%s]" % key, isinstance(got, Poly) and got == want, fi.where(n),
-                   "%s = %r" % (key, got), "derived variable %s is not %s" % (key, {"B_field": "the mean of the face fields", "mass": "density * dx**3"}[key]))
-    keys = [norm(x) for x in walk_no_nested(fi.node) if isinstance(x, ast.Subscript) and isinstance(x.value, ast.Name) and x.value.id == D]
-    run.ob("config/defaults.py::additional_variables::group-key", all(k == "%s['mesh']" % D for k in keys) and keys, fi.where(),
-           "derived variables read and written in %s" % sorted(set(keys)), "KeyError swallowed by the try/except: derived variables silently missing")
 
 
 def r4(run, tree):
     run.rule("C13.R4", "vector assembly; derived variables", "D7 folding over name sets + D1", "", floor=10)
     iof.check_vector_assembly(run, tree)
-    check_derived_variables(run, tree)
+    iof.check_derived_variables(run, tree)
 
 
 RULES = [r1, r2, r3, r4]
